@@ -46,7 +46,7 @@ func VerifC04Templates() {
 	}
 	h := nd.From("h", nd.Choose("hl", 1, nd.Param("H", 2)), "aA'\" .\\$#|-")
 	var s string
-	switch nd.Choose("tpl", 0, 11) {
+	switch nd.Choose("tpl", 0, nd.Param("TPLS", 19)-1) {
 	case 0:
 		s = "a: " + h + "\n"
 	case 1:
@@ -76,6 +76,24 @@ func VerifC04Templates() {
 		s = "vars: {x: " + h + "}\na: ${x}\n"
 	case 9:
 		s = "a: '" + h + "'\n" + h + "\n"
+	case 12: // a label that happens to be spelled like a reserved word, in any letter case
+		words := []string{"label", "shape", "near", "width", "link", "style", "layers", "steps", "class", "top", "icon", "null", "true"}
+		s = "a: " + nd.CaseMask("vw", words[nd.Choose("word", 0, len(words)-1)]) + "\n"
+	case 13: // the same as a connection label and inside a container
+		words := []string{"label", "near", "link", "left", "desc"}
+		s = "x: {a -> b: " + nd.CaseMask("vw", words[nd.Choose("word", 0, len(words)-1)]) + "}\n"
+	case 14: // comments next to keys on one line
+		s = "a; \"\"\" " + h + " \"\"\"\nb # " + h + "\n"
+	case 15: // substitutions inside double-quoted text with text around them
+		s = "vars: {v: 1}\na: \"" + h + "${v}" + h + "\"\n"
+	case 16: // connection fields without index, with index, with a key prefix
+		f := nd.Choose("f", 0, 2)
+		s = "a -> b\nx: {c -> d}\n(a -> b)." + []string{"label", "style.opacity", "source-arrowhead.shape"}[f] + ": " + []string{"hi", "0.4", "circle"}[f] + "\nx.(c -> d)[0].label: " + h + "\n"
+	case 17: // block strings with blank and white-space-only lines
+		ws := []string{"", " ", "  ", "    ", "\t"}[nd.Choose("ws", 0, 4)]
+		s = "x: |md\n  a\n  " + ws + "\n  " + h + "\n|\n"
+	case 18: // connection chains and reversed arrows with labels
+		s = "a -> b <- c -- d: " + h + "\nb <-> a: " + h + "\n"
 	}
 	c04Check(s)
 }
